@@ -200,6 +200,27 @@ def gen_pipeline(rng, proj, config, in_class=True):
     elif u < 0.7: pipe.append({'t': 'idem'})
     return pipe
 
+def fix_inline_class(proj):
+    """class of the inline stream (finding F-C24-11): a routine A whose calls of X are ALL marked `!$loki inline` (its import of X
+    is dropped) must not also inline - directly or through nested marked calls - a routine whose body calls X; such an X gets an
+    additional plain call in A, which keeps the import"""
+    rs = routines_of(proj)
+    marked_any = lambda c: any(c.get('marks') or [])
+    marked_all = lambda c: bool(c.get('marks')) and all(c['marks'])
+    for a in rs:
+        ra = rs[a][1]
+        seen, work = set(), [c['name'] for c in ra['calls'] if marked_any(c)]
+        while work:
+            b_ = work.pop()
+            if b_ in seen or b_ not in rs: continue
+            seen.add(b_)
+            work += [c['name'] for c in rs[b_][1]['calls'] if marked_any(c)]
+        brought = {c['name'] for b_ in seen for c in rs[b_][1]['calls']}
+        for c in ra['calls']:
+            if marked_all(c) and c['name'] in brought:
+                c['marks'] = list(c['marks']) + [False]
+    return proj
+
 def normalise_e2e(case):
     """bring a generated end-to-end case into the class where planning and conversion agree (see notes/C24.md)"""
     proj, config, pipe = case['proj'], case['config'], case['pipeline']
@@ -240,7 +261,17 @@ def normalise_e2e(case):
                 sp['kernels'] = [k for k in sp['kernels'] if no_intf(k, sp['subgraph'])]
     # a removed kernel is not declared through an INTERFACE block (F-C24-3) and is not the original of a duplicate (F-C24-4)
     ic = intf_called(proj)
-    dupped = {k for sp in pipe if sp['t'] == 'dup' for k in sp['kernels']}
+    dupped = set()
+    def below(n, acc):
+        for c in rs[n][1]['calls']:
+            if c['name'] in rs and c['name'] not in acc:
+                acc.add(c['name']); below(c['name'], acc)
+        return acc
+    for sp in pipe:
+        if sp['t'] == 'dup':
+            for k in sp['kernels']:
+                dupped.add(k)
+                if sp['subgraph']: dupped |= below(k, set())      # the whole cloned subgraph
     for sp in pipe:
         if sp['t'] == 'rem': sp['kernels'] = [k for k in sp['kernels'] if k not in ic and k not in dupped]
     pipe[:] = [sp for sp in pipe if sp['t'] not in ('dup', 'rem') or sp['kernels']]
@@ -691,6 +722,7 @@ class C24(Property):
                 for c in rng.sample(ucalls, min(len(ucalls), rng.choice([1, 2, 3]))):
                     c['marks'] = rng.choice([[True], [False, True], [True, False], [True, True], [False, True, False],
                                              [True, False, True], [False, False, True]])
+                fix_inline_class(proj)
             yield normalise_e2e({'kind': 'e2e', 'proj': proj, 'config': config, 'pipeline': pipeline,
                    'fw': {'suffix': rng.choice([None, None, None, '.f90', '.F90']), 'modvars': rng.random() < 0.25},
                    'rootpath': rng.random() < 0.6, 'outdir': rng.random() < 0.85, 'relative': rng.random() < 0.2,
